@@ -28,7 +28,7 @@ REQUIRED = ['mon.flashes_completed', 'mon.images_compared', 'mon.load_buffer_pac
             'mon.flashes_with_progress_callback', 'mon.late_answer_then_failing_write',
             'mon.second_flash_with_the_same_bootloader', 'mon.flash_at_the_start_page_after_one_at_an_override_page', 'mon.unanswered_write_on_a_busy_downlink',
             'mon.two_target_sessions_with_duplicated_info_answers', 'mon.packages_flashed',
-            'mon.packages_that_update_the_soft_device']
+            'mon.packages_that_update_the_soft_device', 'mon.packages_with_a_bootloader_the_device_already_runs']
 EXHAUSTIVE = {'quick': False, 'thorough': False}
 DESC_TIMEOUT = 1200
 
@@ -417,7 +417,13 @@ class PkgTarget(Target):
         Target.__init__(self, *a)
         self.dev = dev
 
+    version = None        # (major, minor, patch) reported by newer bootloaders
+
     def handle(self, header, data):
+        if header == 0xFF and len(data) >= 2 and data[0] == self.tid and data[1] == 0x10 and self.version is not None:
+            self.out.append(struct.pack('<BBHHHH', self.tid, 0x10, self.ps, self.bp, self.fp, self.sp) + bytes(range(12)) + bytes([0x10]) +
+                            struct.pack('<HBB', *self.version))
+            return
         if header == 0xFF and len(data) >= 2 and data[0] == self.tid and data[1] == 0xFF:
             self.out.append(bytes([self.tid, 0xFF, 0x11, 0x22, 0x33, 0x44, 0x55, 0x66]))
             return
@@ -511,14 +517,22 @@ def run_package(desc, ctx):
         for it in range(desc['n']):
             old_sp, new_sp = rnd.choice(((88, 108), (108, 88), (88, 108)))
             sd_name = {88: 'sd-s110', 108: 'sd-s130'}
-            update_sd = rnd.random() < 0.7
+            update_sd = rnd.random() < 0.6
+            # or: the package brings a bootloader+softdevice the device already runs (same soft device, same bootloader
+            # release) - nothing of it is to be flashed
+            uptodate = (not update_sd) and rnd.random() < 0.6
             stm_geo = (1024, rnd.choice((10, 4)), rnd.choice((1024, 128)), rnd.choice((16, 4)))
             nrf_geo = (1024, 1, rnd.choice((232, 256)), old_sp)
-            sd_bl = rnd.randbytes(1024 * rnd.randint(1, 6)) if update_sd else None
-            dev = PkgDevice(stm_geo, nrf_geo, sd_bl, new_sp)
+            sd_bl = rnd.randbytes(1024 * rnd.randint(1, 6)) if (update_sd or uptodate) else None
+            dev = PkgDevice(stm_geo, nrf_geo, sd_bl if update_sd else None, new_sp)
+            bl_release = (1, rnd.randint(0, 9), rnd.randint(0, 9))
+            if uptodate:
+                dev.t[0xFE].version = bl_release
+                ctx.count('mon.packages_with_a_bootloader_the_device_already_runs')
             nrf_fw = rnd.randbytes(rnd.randint(1, 5 * 1024)) if rnd.random() < 0.85 else None
             stm_fw = rnd.randbytes(rnd.randint(1, 12 * 1024)) if rnd.random() < 0.7 else None
-            if nrf_fw is None and stm_fw is None:
+            if (nrf_fw is None and stm_fw is None) or (uptodate and nrf_fw is None):
+                # (the library decides whether the soft device is current from what the nRF51 firmware of the package requires)
                 nrf_fw = rnd.randbytes(rnd.randint(1, 3000))
             files = []
             if stm_fw is not None:
@@ -530,8 +544,8 @@ def run_package(desc, ctx):
                                                        'requires': [sd_name[new_sp if update_sd else old_sp]]}))
             if sd_bl is not None:
                 files.append(('sd_bl.bin', sd_bl, {'platform': 'cf2', 'target': 'nrf51', 'type': 'bootloader+softdevice',
-                                                    'release': '1.%d' % rnd.randint(0, 9), 'repository': 'crazyflie2-nrf-bootloader',
-                                                    'provides': [sd_name[new_sp]]}))
+                                                    'release': '%d.%d.%d' % bl_release, 'repository': 'crazyflie2-nrf-bootloader',
+                                                    'provides': [sd_name[new_sp if update_sd else old_sp]]}))
             rnd.shuffle(files)
             tmp = tempfile.mkdtemp(prefix='vf_c12_')
             zpath = os.path.join(tmp, 'update.zip')
